@@ -4,6 +4,7 @@ from fractions import Fraction
 import common
 from common import sx, q, jq, ok, cname, cnum
 from units import U
+import props.c03_hare as c03_hare
 
 ID = 'C03'
 LEVEL = 'proof'
@@ -117,7 +118,7 @@ def canon(c, wire):
 
 
 # ---------------------------------------------------------------- invariants on the real allocation
-def make_checker(c, problems):
+def make_checker(c, problems, whole=False):
     import votelib.component.transfer as tr
     state = dict(quota_seats=0)
     cf = c['cfg']
@@ -167,6 +168,8 @@ def make_checker(c, problems):
                     problems.append('negative weight')
                 if isinstance(w, float):
                     problems.append('float weight')
+                if whole and q(w).denominator != 1:
+                    problems.append('whole-ballot transfer left the fractional weight %s' % w)
                 if not any(isinstance(i, frozenset) for i in b):
                     cont = [x for x in new if x is not None]
                     first = next((i for i in b if i in cont), None)
@@ -251,14 +254,18 @@ def gen(rng, count, selector_only=False):
 def corpus():
     import os, json, glob
     for p in sorted(glob.glob(os.path.join(common.VERIF, 'corpus', ID, '*.json'))):
-        yield json.load(open(p))
+        if not os.path.basename(p).startswith('hare-'):      # the Hare cases (with their draws) run in props/c03_hare.py
+            yield json.load(open(p))
 
 
 def explore(ctx, widen=1):
     kw = dict(canon=canon, nontrivial=nontrivial, spec=spec, known_class=known_class, limit=20)
     ctx.differential('corpus', corpus(), model_line, impl, **kw)
     ctx.differential('random', gen(ctx.rng, ctx.n(1500, 25000) * widen), model_line, impl, **kw)
+    c03_hare.explore(ctx, widen)
 
 
 def replay(ctx, case, stream=None):
+    if case.get('unit') == 'stv_hare':
+        return c03_hare.replay(ctx, case)
     ctx.differential('replay', [case], model_line, impl, canon=canon, nontrivial=nontrivial, spec=spec, known_class=known_class)
